@@ -231,6 +231,7 @@ def normalise(tree: ast.AST) -> None:
                     if (isinstance(st, ast.Assign) and len(st.targets) == 1 and isinstance(st.targets[0], ast.Name) and isinstance(st.value, ast.BinOp) and isinstance(st.value.op, (ast.Add, ast.Sub))
                             and isinstance(st.value.left, ast.Name) and st.value.left.id == st.targets[0].id):
                         st = ast.copy_location(ast.AugAssign(target=ast.Name(st.targets[0].id, ast.Store()), op=st.value.op, value=st.value.right), st)
+                        st.from_plain = True      # written as x = x + y: builds a new object (matters only where aliasing matters)
                         ast.fix_missing_locations(st)
                     elif (isinstance(st, ast.Assign) and len(st.targets) == 1 and isinstance(st.targets[0], ast.Subscript) and isinstance(st.value, ast.BinOp) and isinstance(st.value.op, (ast.Add, ast.Sub))
                             and isinstance(st.value.left, ast.Subscript) and ast.unparse(st.value.left) == ast.unparse(st.targets[0]) and not any(isinstance(x, ast.Call) for x in ast.walk(st.targets[0]))):
